@@ -1,0 +1,17 @@
+//go:build verif
+// +build verif
+
+package network
+
+// Accessors for the verification harness (property C20); compiled only with
+// the build tag "verif".
+
+// VerifGetListenAddress exposes getListenAddress.
+func VerifGetListenAddress(addr Address, listenAddr string) (string, error) {
+	return getListenAddress(addr, listenAddr)
+}
+
+// VerifValidHostname exposes validHostname.
+func VerifValidHostname(s string) bool {
+	return validHostname(s)
+}
